@@ -27,7 +27,7 @@ ASSUMPTIONS = [
     "copulas: finite-variation margins, level-0 grids of at most 7 points per axis, levels 1..2",
 ]
 REQUIRED_COUNTERS = ["kernels_measured", "conservation_checks", "coarse_drift_checks", "coarse_diffusion_checks",
-                     "coupled_paths_replayed", "nd_kernels_measured", "infinite_variation_copula_chains"]
+                     "coupled_paths_replayed", "nd_kernels_measured", "infinite_variation_copula_chains", "sde_coupling_levels"]
 MIN_NONTRIVIAL = {"quick": 30, "thorough": 250}
 THOROUGH_ROUNDS = 2      # the thorough tier runs the generators this many times (different seeds)
 SHARD_TIMEOUT = {"quick": 900, "thorough": 7200}
@@ -54,6 +54,10 @@ def gen_cases(tier, seed):
                 g["pstep"] = W.r6(W._logu(rng, 0.04, 0.2))
             cases.append({"model": m, "grid": g, "method": C.METHODS_1D[i % 6], "levels": 2 if not thorough else 3,
                           "mode": ["fixed", "jumptimes", "maxstep"][i % 3], "seed": int(rng.integers(2**31))})
+    # the SDE coupling built on the 1-d coupling: coarse driver drift / diffusion of level l-1 over repeated refinements
+    for j in range(4 if not thorough else 24):
+        cases.append({"sde": True, "model": W.gen_model_spec(rng, ["CGMY", "HEM", "VG", "MERTON"][j % 4], exp=False), "levels": 3,
+                      "grid": {"ctor": "fixed", "dim": 1, "h": W.r6(rng.uniform(0.05, 0.15)), "n": int(rng.choice([5, 7, 9]))}, "seed": int(rng.integers(2**31))})
     for j in range(4 if not thorough else 30):
         dim = 2 if j % 4 else 3
         cm = W.gen_copula_model_spec(rng, dim=dim, kind=str(rng.choice(["clayton", "clayton", "independent", "dependent"])))
@@ -118,10 +122,70 @@ def run_case(case, R):
     with mock.patch.object(Uniform, "sample", lambda inst, size=1: src(inst, size)), \
             mock.patch.object(Poisson, "sample", poisson_sample):
         np.random.seed(case["seed"] % (2**31))
-        if "margins" in case["model"]:
+        if case.get("sde"):
+            _run_sde(case, R)
+        elif "margins" in case["model"]:
             _run_nd(case, R, src)
         else:
             _run_1d(case, R, src)
+
+
+def _run_sde(case, R):
+    """CouplingSDE over three refinements: at level l the coarse component is driven with the drift and the diffusion coefficient of the
+    level-(l-1) chain, computed here by an independent MarkovChainProcess on a freshly built grid refined l-1 times"""
+    import logging
+    import warnings
+
+    warnings.simplefilter("ignore")
+    logging.disable(logging.CRITICAL)
+    from rpylib.model.levydrivensde.levydrivensde import LevyDrivenSDEModel, Constant
+    from rpylib.process.coupling.couplingsde import CouplingSDE
+    from rpylib.process.markovchain.markovchain import MarkovChainProcess
+    from rpylib.montecarlo.path import MLMCPath
+    from rpylib.product.product import Product
+    from rpylib.product.underlying import Spot
+    from rpylib.product.payoff import Forward
+
+    mspec, g = case["model"], dict(case["grid"])
+    label = W.model_label(mspec)
+    wit = {"case": case}
+    product = Product(payoff_underlying=Spot(), payoff=Forward(strike=0.0), maturity=0.8)
+    meth = C.sampling_method("BINARYSEARCHTREEADAPTED1D")
+    try:
+        driver = W.build_model(mspec)
+        model = LevyDrivenSDEModel(driver=driver, x0=1.0, a=Constant(m=1, d=1, constant=0.7))
+        cp = CouplingSDE(model=model, grid=G.build_grid(dict(g), driver), method=meth)
+        cp.initialisation(product)
+        cp.pre_computation(2, product)
+        pms = [MLMCPath(deterministic_path=cp.fine_process.deterministic_path, activate_spot_underlying=False)]
+    except Exception as exc:  # noqa: BLE001
+        R.violation("sde-coupling-setup-raises", f"{label}: {type(exc).__name__}: {exc}", wit)
+        return
+
+    def reference(level):
+        grid = G.build_grid(dict(g), W.build_model(mspec))
+        for _ in range(level):
+            grid.refine()
+        ref = MarkovChainProcess(model=W.build_model(mspec), method=meth, grid=grid)
+        ref.initialisation(product)
+        return float(np.asarray(ref.process_drift()).reshape(-1)[0]), float(ref.equivalent_diffusion_coefficient)
+
+    for level in range(1, case["levels"] + 1):
+        try:
+            cp.next_level(2, pms, product)
+        except Exception as exc:  # noqa: BLE001
+            R.violation("sde-coupling-next-level-raises", f"{label}: level {level}: {type(exc).__name__}: {exc}", wit)
+            return
+        want_c, want_sig_c = reference(level - 1)
+        want_f, _ = reference(level)
+        R.hit("sde_coupling_levels")
+        got_c = float(np.asarray(cp.mc_drift_2h, dtype=float).reshape(-1)[0])
+        got_f = float(np.asarray(cp.mc_drift_h, dtype=float).reshape(-1)[0])
+        if not (abs(got_c - want_c) <= 1e-10 * (1 + abs(want_c)) and abs(got_f - want_f) <= 1e-10 * (1 + abs(want_f))):
+            R.violation("sde-coupling-coarse-drift-not-level-below", f"{label}: SDE coupling at level {level}: driver drifts (fine, coarse) = ({got_f!r}, {got_c!r}), "
+                        f"chains built apart at levels {level} and {level - 1} have drifts ({want_f!r}, {want_c!r})", wit)
+            return
+    R.nontrivial_case("sde", label, case["grid"]["h"], case["grid"]["n"])
 
 
 def _oracle_1d(mspec, model, grid):
@@ -497,11 +561,33 @@ def _run_nd(case, R, src):
                         "level below", wit)
         # a coupled simulation must at least run and keep fine/coarse aligned
         try:
-            path = cp.simulate_one_path_with_coupling()
-            R.hit("coupled_paths_replayed")
-            jp = np.asarray(path.jump_path)
-            if jp.shape[0] != 2 or jp.shape[-1] != np.asarray(path.jump_times).shape[0]:
-                R.violation("nd-coupled-path-misaligned", f"{label} level {level}: jump path shape {jp.shape} vs {len(path.jump_times)} times", wit)
+            for _rep in range(3):
+                path = cp.simulate_one_path_with_coupling()
+                R.hit("coupled_paths_replayed")
+                jp = np.asarray(path.jump_path)
+                if jp.shape[0] != 2 or jp.shape[-1] != np.asarray(path.jump_times).shape[0]:
+                    R.violation("nd-coupled-path-misaligned", f"{label} level {level}: jump path shape {jp.shape} vs {len(path.jump_times)} times", wit)
+                elif mode != "fixed":
+                    # along the simulated path (one fine jump per step): the coarse jump is the fine jump itself or moves each coordinate to a
+                    # state of the fine axis adjacent to it -- never a later jump, never nothing when the fine jump sits on the coarse grid
+                    dfine = np.diff(jp[0].reshape(d, -1), axis=1)
+                    dcoarse = np.diff(jp[1].reshape(d, -1), axis=1)
+                    R.hit("coupled_path_steps_checked", dfine.shape[1])
+                    for i_step in range(dfine.shape[1]):
+                        bad_k = None
+                        for k in range(d):
+                            ax = np.asarray(axes_f[k], dtype=float)
+                            j0 = int(np.argmin(np.abs(ax - dfine[k, i_step])))
+                            if abs(ax[j0] - dfine[k, i_step]) > 1e-9 * (1 + abs(ax[j0])):
+                                continue      # (not a single grid jump: step added by the time grid)
+                            allowed = ax[max(j0 - 1, 0):j0 + 2]
+                            if np.min(np.abs(allowed - dcoarse[k, i_step])) > 1e-9 * (1 + abs(dcoarse[k, i_step])):
+                                bad_k = k
+                                break
+                        if bad_k is not None:
+                            R.violation(f"nd-coupled-path-coarse-jump-not-adjacent-to-the-fine-jump-{mode}", f"{label}/{ctor} level {level} ({mode}): at step {i_step} the "
+                                        f"fine component jumps by {dfine[:, i_step].tolist()} and the coarse one by {dcoarse[:, i_step].tolist()}", wit)
+                            break
         except Exception as exc:  # noqa: BLE001
             R.violation(f"nd-coupled-simulation-raises-{mode}", f"{label}/{ctor} level {level} method {method} ({mode}): "
                         f"simulate_one_path_with_coupling raises {type(exc).__name__}: {exc}", wit)
